@@ -453,11 +453,11 @@ class BindStateBase:
 
         The expected event is defined by the State's sent_cmd, rcvd_msg methods.
         """
-        try:
-            await asyncio.wait_for(self._fut, timeout)
+        try:  # shield: on a timeout, wait_for() must not cancel the future we then fail
+            await asyncio.wait_for(asyncio.shield(self._fut), timeout)
         except TimeoutError:
-            self._handle_wait_timer_expired(timeout)
-        else:
+            self._handle_wait_timer_expired(timeout)  # a no-op if the msg has just arrived
+        if self._fut.exception() is None:  # the expected msg arrived (the fut is done by now)
             self._set_context_state(self._next_ctx_state)
         result: Message = self._fut.result()  # may raise exception
         return result
@@ -469,6 +469,9 @@ class BindStateBase:
             f"{self._context}: Failed to transition to {self._next_ctx_state}: "
             f"expected message not received after {timeout} secs"
         )
+
+        if self._fut.done():  # e.g. the state's own timer, after the wait had ended
+            return
 
         _LOGGER.warning(msg)
         self._fut.set_exception(exc.BindingFlowFailed(msg))
@@ -567,8 +570,8 @@ class _DevIsWaitingForMsg(BindStateBase):
 
     def rcvd_msg(self, msg: Message) -> None:
         """If the msg is the waited-for pkt, transition to the next state."""
-        if self.is_phase(msg._pkt, self._expected_pkt_phase):
-            self._fut.set_result(msg)
+        if self.is_phase(msg._pkt, self._expected_pkt_phase) and not self._fut.done():
+            self._fut.set_result(msg)  # a repeat of the packet (RF devices send 3x) is ignored
 
 
 class _DevIsReadyToSendCmd(BindStateBase):
@@ -614,7 +617,7 @@ class _DevIsReadyToSendCmd(BindStateBase):
 
     def rcvd_msg(self, msg: Message) -> None:
         """If the msg is the echo of the sent cmd, transition to the next state."""
-        if self._cmd and msg._pkt == self._cmd:
+        if self._cmd and msg._pkt == self._cmd and not self._fut.done():
             self._fut.set_result(msg)
 
 
@@ -629,8 +632,8 @@ class _DevSendCmdUntilReply(_DevIsWaitingForMsg, _DevIsReadyToSendCmd):
         """If the msg is the expected reply, transition to the next state."""
         # if self._cmd and msg._pkt == self._cmd:  # the echo
         #     self._set_context_state(self._next_ctx_state)
-        if self.is_phase(msg._pkt, self._expected_pkt_phase):
-            self._fut.set_result(msg)
+        if self.is_phase(msg._pkt, self._expected_pkt_phase) and not self._fut.done():
+            self._fut.set_result(msg)  # a repeat of the packet (RF devices send 3x) is ignored
 
 
 class DevHasFailedBinding(BindStateBase):
